@@ -10,6 +10,9 @@ types do not interfere.  Obligations, per (subset, match assignment, default):
   R15a order-independence: all permutations give the same outcome;
   R15b priority: the outcome is  constrained match > unconstrained > default;
   R15c conflict: KeyError is raised iff two different constrained entries match.
+R15g: the producers of the lookup (each wrapper's _single_cost_fn_map) describe the layer by
+  vars(layer) -- its static attributes -- so 'the layer satisfies the pattern' does not depend
+  on masks / coefficients at the time the map is (re)built.
 """
 from __future__ import annotations
 
@@ -247,6 +250,11 @@ def run(ctx):
     r15d(ctx)
     r15e(ctx)
     r15f(ctx)
+    # R15g: the spec handed to the lookup by each wrapper is the layer itself (vars(layer)),
+    # not search state -- shared with R04d / R05g / R06h
+    from .c04 import lookup_key_rule
+    for w in ('PIT', 'MPS', 'SuperNet'):
+        lookup_key_rule(ctx, 'R15g', w)
     repo = ctx.repo
     ci = repo.cls('CostSpec')
     init, setitem, getitem = (_class_fn(ci, n) for n in ('__init__', '__setitem__', '__getitem__'))
